@@ -42,6 +42,8 @@ Bad(e) ==
     [] e.fn = "encode_length" -> EncBad(e.out, EncLen(e.l))
     [] e.fn = "encode_oid" -> EncBad(e.out, EncOid(e.arcs))
     [] e.fn = "encode_number" -> EncBad(e.out, EncSubId(e.l))
+    [] e.fn = "encode_number_big" -> EncBad(e.out, EncSubIdB(e.v))
+    [] e.fn = "encode_oid_big" -> EncBad(e.out, EncOidB(e.first, e.second, e.rest))
     [] e.fn = "encode_bitstring" -> EncBad(e.out, EncBits(e.body, e.unused))
     [] e.fn = "encode_octet_string" -> EncBad(e.out, EncOctet(e.body))
     [] e.fn = "encode_sequence" -> EncBad(e.out, EncSeq(Concat(e.pieces)))
